@@ -194,3 +194,62 @@ class DetectAmp:
         if got != exp:
             return 'is_burst %s expected %s' % (got, exp)
         return None
+
+
+@job('burst_features_small', props=['C05', 'C09', 'C16'], function='bycycle.features.burst.compute_amp_consistency')
+class BurstFeaturesSmall:
+    exhaustive = True
+    chunk = 400
+
+    def bound(self, tier):
+        n = 4 if tier == 'quick' else 5
+        return ('tables with <= %d rows, volt_rise / volt_decay over {-1, 0, 1, 2} (zeros and negatives: 0/0, x/0), '
+                'periods over {1, 2, 3}, both centrings, directions both/next/last; amp_fraction with ties and nan' % n)
+
+    def gen(self, tier, seed):
+        nmax = 4 if tier == 'quick' else 5
+        vals = (-1, 0, 1, 2)
+        for n in range(1, nmax + 1):
+            for rises in itertools.product(vals, repeat=n):
+                decs = list(itertools.product(vals, repeat=n))
+                if n >= 4:
+                    rng = random.Random(hash((seed, rises)) & 0xffffffff)
+                    decs = rng.sample(decs, 24 if tier == 'quick' else 64)
+                for decays in decs:
+                    yield {'kind': 'amp', 'rises': list(rises), 'decays': list(decays)}
+            for periods in itertools.product((1, 2, 3), repeat=n):
+                yield {'kind': 'period', 'periods': list(periods)}
+            for amps in itertools.product((0.5, 1.0, 2.0, None), repeat=n):
+                yield {'kind': 'rank', 'amps': list(amps)}
+
+    def nontrivial(self, c):
+        return len(c.get('rises', c.get('periods', c.get('amps')))) >= 3
+
+    def run(self, c):
+        from bycycle.features.burst import compute_amp_consistency, compute_period_consistency, compute_amp_fraction
+        if c['kind'] == 'amp':
+            for marker in ('sample_peak', 'sample_trough'):
+                df = pd.DataFrame({'volt_rise': np.array(c['rises'], float), 'volt_decay': np.array(c['decays'], float),
+                                   marker: np.arange(len(c['rises']))})
+                for d in ('both', 'next', 'last'):
+                    got = compute_amp_consistency(df, direction=d)
+                    exp = O.amp_consistency_ref(df['volt_rise'].values, df['volt_decay'].values,
+                                                marker == 'sample_peak', d)
+                    if not O.same_array(got, exp, 1e-12):
+                        return 'amp_consistency(%s, %s) = %s expected %s' % (marker, d, got, exp)
+            return None
+        if c['kind'] == 'period':
+            df = pd.DataFrame({'period': np.array(c['periods'])})
+            for d in ('both', 'next', 'last'):
+                got = compute_period_consistency(df, direction=d)
+                exp = O.period_consistency_ref(np.array(c['periods'], float), d)
+                if not O.same_array(got, exp, 1e-12):
+                    return 'period_consistency(%s) = %s expected %s' % (d, got, exp)
+            return None
+        amps = np.array([np.nan if a is None else a for a in c['amps']], float)
+        df = pd.DataFrame({'volt_amp': amps})
+        got = compute_amp_fraction(df).values
+        exp = O.avg_rank_ref(amps) / len(amps)
+        if not O.same_array(got, exp, 1e-12):
+            return 'amp_fraction = %s expected %s' % (got, exp)
+        return None
